@@ -29,12 +29,29 @@ def model(pattern):
 
 # ------------------------------------------------------------------ database state
 
+class CrashDB(Exception):
+    """the process dies at a durability point of the database (before a commit / an autocommitted statement)"""
+
+
 class Db:
     def __init__(self):
         self.tables = {}       # name -> list of row dicts
         self.pk = {}           # name -> primary key column
         self.last_rowid = 0
         self.log = []
+        self.durability_points = 0     # commits and autocommitted statements so far
+        self.crash_at = None           # die before the durability point with this index
+        self.active_tx = None
+
+    def durability_point(self, what):
+        """called right before something becomes durable"""
+        if self.crash_at is not None and self.durability_points == self.crash_at:
+            if self.active_tx is not None:
+                self.restore(self.active_tx.snap)      # sqlite rolls an uncommitted transaction back on recovery
+                self.active_tx = None
+            self.log.append("CRASH before %s" % what)
+            raise CrashDB(what)
+        self.durability_points += 1
 
     def snapshot(self):
         return {t: [dict(r) for r in rows] for t, rows in self.tables.items()}
@@ -347,6 +364,8 @@ def run_statement(engine, ctx, stmt, params):
     q = deref(stmt).q
     db = db_of(ctx)
     rows = db.tables.setdefault(q.table, [])
+    if db.active_tx is None:
+        db.durability_point("autocommitted %s" % q.kind)
     if q.kind == "insert":
         pk = db.pk.get(q.table)
         row = {}
@@ -429,6 +448,7 @@ def m_transaction(engine, ctx, args, callee, frame):
     conn = deref(args[0])
     tx = TxV(conn, db_of(ctx).snapshot())
     conn.tx = tx
+    db_of(ctx).active_tx = tx
     return ok(tx)
 
 
@@ -445,7 +465,9 @@ def m_conn_deref(engine, ctx, args, callee, frame):
 @model(r"Transaction::<'_>::commit$|Transaction<'_>>::commit$")
 def m_tx_commit(engine, ctx, args, callee, frame):
     tx = deref(args[0])
+    db_of(ctx).durability_point("commit")
     tx.committed = True
+    db_of(ctx).active_tx = None
     return ok(unit())
 
 
@@ -455,6 +477,7 @@ def run_with_conn(engine, ctx, clo):
     if conn.tx is not None and not conn.tx.committed:
         db_of(ctx).restore(conn.tx.snap)          # dropped without commit: rollback
         db_of(ctx).log.append("rollback")
+        db_of(ctx).active_tx = None
     return r
 
 
